@@ -248,7 +248,7 @@ def run(ctx: Ctx):
         cases.append(case)
     # e2e
     jobs = []
-    nsc = ctx.n(3, 24)
+    nsc = ctx.n(3, 100)
     for s in range(nsc):
         spec = {"R": rng.randint(1, 4), "groups": rng.randint(1, 2), "kernels": rng.randint(1, 3),
                 "seed": rng.randint(0, 10 ** 6), "ties": rng.randint(2, 6), "near": s % 2 == 0}
